@@ -5,6 +5,11 @@ use elements::encode::{deserialize, serialize};
 use elements::hashes::{sha256d, Hash};
 use elements::{BlockExtData, BlockHeader, Transaction, TxInWitness, TxOutWitness};
 
+/// genesis blocks and chain hashes (src/genesis.rs) — runs after everything else so that the random
+/// stream of the checks above is unchanged
+#[path = "c02_genesis.rs"]
+pub mod genesis;
+
 fn strip(t: &Transaction) -> Transaction {
     let mut s = t.clone();
     for i in s.input.iter_mut() { i.witness = TxInWitness::empty(); }
@@ -176,4 +181,5 @@ pub fn run(rng: &mut R, out: &mut Out) {
         let h = gen::header(rng);
         one_header(out, rng, &h);
     }
+    genesis::run(rng, out);
 }
